@@ -82,7 +82,9 @@ type Pool struct {
 
 // StartPool launches n workers (same binary, same arguments). env is appended to the
 // environment; GOMAXPROCS=1 is set unless env overrides it (one process per core; a single P
-// avoids long stop-the-world stalls on an oversubscribed machine).
+// avoids long stop-the-world stalls on an oversubscribed machine), and GODEBUG=madvdontneed=0
+// (freed heap pages stay resident, so the 4 MiB goleveldb memtables every fresh node allocates
+// are not page-faulted in again each time).
 func StartPool(n int, env ...string) (*Pool, error) {
 	self, err := os.Executable()
 	if err != nil {
@@ -102,7 +104,7 @@ func StartPool(n int, env ...string) (*Pool, error) {
 		}
 		w := &poolWorker{req: reqW, respF: respR, resp: bufio.NewReaderSize(respR, 1<<20)}
 		cmd := exec.Command(self, os.Args[1:]...)
-		cmd.Env = append(os.Environ(), poolEnv+"=1", "GOMAXPROCS=1")
+		cmd.Env = append(os.Environ(), poolEnv+"=1", "GOMAXPROCS=1", "GODEBUG=madvdontneed=0")
 		cmd.Env = append(cmd.Env, env...)
 		cmd.ExtraFiles = []*os.File{reqR, respW}
 		cmd.Stdout = &w.stderr
@@ -117,6 +119,18 @@ func StartPool(n int, env ...string) (*Pool, error) {
 		p.ws = append(p.ws, w)
 	}
 	return p, nil
+}
+
+// Budget returns def seconds unless VERIF_BUDGET_S overrides it (internal time cap of a check:
+// reaching it ends the run with exhaustive:false, never with a verdict).
+func Budget(def int) time.Duration {
+	if s := os.Getenv("VERIF_BUDGET_S"); s != "" {
+		var n int
+		if _, err := fmt.Sscanf(s, "%d", &n); err == nil && n > 0 {
+			return time.Duration(n) * time.Second
+		}
+	}
+	return time.Duration(def) * time.Second
 }
 
 // Size is the number of workers.
